@@ -58,6 +58,23 @@ Shl1(a) == LET t0 == 2 * a[1]
 RECURSIVE P2(_)
 P2(k) == IF k = 0 THEN 1 ELSE 2 * P2(k - 1)
 Bit(a, i) == (a[(i \div 16) + 1] \div P2(i % 16)) % 2
+\* bitwise operations, limb by limb and bit by bit (only used by instructions the backends emit rarely or not at all yet)
+RECURSIVE BW16(_, _, _, _)
+BW16(op, x, y, i) ==
+  IF i = 16 THEN 0
+  ELSE LET a == (x \div P2(i)) % 2
+           b == (y \div P2(i)) % 2
+           r == IF op = "and" THEN a * b ELSE IF op = "or" THEN (a + b) - (a * b) ELSE (a + b) % 2
+       IN r * P2(i) + BW16(op, x, y, i + 1)
+BitAnd(a, b) == <<BW16("and", a[1], b[1], 0), BW16("and", a[2], b[2], 0), BW16("and", a[3], b[3], 0), BW16("and", a[4], b[4], 0)>>
+BitOr(a, b)  == <<BW16("or", a[1], b[1], 0), BW16("or", a[2], b[2], 0), BW16("or", a[3], b[3], 0), BW16("or", a[4], b[4], 0)>>
+BitXor(a, b) == <<BW16("xor", a[1], b[1], 0), BW16("xor", a[2], b[2], 0), BW16("xor", a[3], b[3], 0), BW16("xor", a[4], b[4], 0)>>
+\* shifts by k in 0..63
+Shr1(a, top) == <<(a[1] \div 2) + (a[2] % 2) * 32768, (a[2] \div 2) + (a[3] % 2) * 32768, (a[3] \div 2) + (a[4] % 2) * 32768, (a[4] \div 2) + top * 32768>>
+Shl(a, k) == FoldLeft(LAMBDA acc, i : Shl1(acc), a, [i \in 1..k |-> i])
+Shr(a, k) == FoldLeft(LAMBDA acc, i : Shr1(acc, 0), a, [i \in 1..k |-> i])
+Sar(a, k) == FoldLeft(LAMBDA acc, i : Shr1(acc, IF IsNeg(a) THEN 1 ELSE 0), a, [i \in 1..k |-> i])
+Low32(a) == <<a[1], a[2], 0, 0>>
 \* unsigned long division, restoring, MSB first: returns <<quotient, remainder>>
 \* one step of restoring division on the pair <<q, r>> for bit i of n
 UDivStep1(n, d, qr, i) ==
